@@ -141,6 +141,8 @@ def execute_(args):
                 consumed = len(child.before or b'')          # all pending text = everything read by this call
         rec['obs'] = {'outcome': out, 'elapsed': min(100000, int(round((w.clock.now - t0) / tick))), 'consumed': consumed,
                       'readable': readable, 'elapsed_raw': round(w.clock.now - t0, 4)}
+        if out == 'BLOCK':
+            rec['obs']['hangup_seen_by'] = TR.hangup_seen_by(w.events)
     except Exception:
         rec['error'] = traceback.format_exc()
     finally:
@@ -397,6 +399,13 @@ def run(ctx):
                     ev2 = tuple((t, 'C' if k == 'H' else k) for t, k in ev)
                     jobs.append((ctx.work, tid, tr, entry, targ, start, ev2, tid))
                     tid += 1
+        # always there (not sampled): the pty child hangs up its terminal strictly inside the timed wait of the call and stays
+        # alive - every entry point x T in {2, None, default} x select / poll (k picks the flavour)
+        for entry in ('expect', 'expect_exact', 'expect_list', 'expect_loop', 'read_nonblocking'):
+            for targ in (2, NONE, DEFAULT):
+                for k in (0, 1):
+                    jobs.append((ctx.work, tid, 'pty', entry, targ, 0, ((1, 'C'),), k))
+                    tid += 1
         t0 = time.time()
         recs = pmap(pool, execute, jobs, chunksize=4, timeout=1500 if quick else 7200)
         nwall = wall_clock(ctx, pool)
@@ -447,7 +456,8 @@ def run(ctx):
             ctx.fail(v, {'transport': r['transport'], 'entry': r['entry'], 'targ': r['targ'], 'start': r['start'],
                          'events': r['events'], 'k': r['k']}, detail={'obs': r['obs']},
                      signature={'transport': r['transport'], 'entry': r['entry'], 'targ': r['targ'],
-                                'outcome': r['obs']['outcome'], 'hangup_without_exit': any(e[1] == 'C' for e in r['events'])})
+                                'outcome': r['obs']['outcome'], 'hangup_without_exit': any(e[1] == 'C' for e in r['events']),
+                                'hangup_seen_by': r['obs'].get('hangup_seen_by')})
         elif r['id'] not in accepted:
             drift += 1
             if drift <= 3:
